@@ -283,7 +283,7 @@ def unit_bounded_training_sets(tier=None, seed=0):
             sub = sorted(rng.choice(allnames, size=k, replace=False).tolist())
             X = rng.normal(size=(n, len(allnames)))
             y = rng.integers(0, 11, size=n).astype(float)
-            pattern = t % 6
+            pattern = t % 8
             if pattern == 1:
                 X[rng.integers(n)] = np.nan
             elif pattern == 2:
@@ -297,6 +297,15 @@ def unit_bounded_training_sets(tier=None, seed=0):
             elif pattern == 5 and n > 1:
                 y[:2] = 0
                 X[0, 0] = np.nan
+            elif pattern in (6, 7) and n > 2:
+                # several zero-rated rows with NaN in DIFFERENT columns: the per-feature reference rows differ
+                # (pattern 7: every zero-rated row has a NaN somewhere, so no row is a reference for all features)
+                nz = int(rng.integers(2, min(n, 6) + 1))
+                y[:nz] = 0
+                y[nz:] = np.maximum(y[nz:], 1)
+                cols = rng.permutation(len(allnames))
+                for r in range(nz if pattern == 7 else nz - 1):
+                    X[r, cols[r % len(cols)]] = np.nan
             _write_ts(tmp / "ts", X, y, allnames)
             for flags in ((True, True, True), (True, False, True)) if tier == "quick" else \
                     [(a, b, c) for a in (True, False) for b in (True, False) for c in (True, False)]:
